@@ -1,7 +1,8 @@
 (* Properties/C05.v — A moving target stays on its source until the destination has scraped it.
    One-cycle form, with the README's literal 3 (the proof needs Gen.Consts.min_wait = 3, a constant
    regenerated from pkg/coordinator/rebalance.go on every run). *)
-From KV Require Import Base.Util Base.AMap Model.Coordinator Model.CoordCheck Proofs.CoordC01 Proofs.CoordCycle.
+From KV Require Import Base.Util Base.AMap Model.Coordinator Model.CoordCheck Model.Sidecar Model.World Proofs.CoordC01 Proofs.CoordCycle
+  Proofs.WorldProofs Proofs.WorldNoGap.
 Local Open Scope list_scope.
 Local Open Scope Z_scope.
 
@@ -37,4 +38,43 @@ Definition ex_i (t : N) : input :=
 Example C05_example :
   holds_after (ex_i 3) (obs_of (cycle ex_o (ex_i 3) [])) 0 7%N = false /\
   holds_after (ex_i 2) (obs_of (cycle ex_o (ex_i 2) [])) 0 7%N = true.
+Proof. vm_compute. split; reflexivity. Qed.
+
+(* ---- the closed loop: there is no interval in which no shard holds a discovered target ----
+   World model = N sidecars (C10's model) + the coordinator's cycle + a StatefulSet following the scale requests.
+   One cycle with ANY faults (updates that do not arrive, shards unreachable / not ready / refusing the configuration)
+   under ANY schedule: a discovered target held by some sidecar before is held by some sidecar afterwards. *)
+Theorem C05_no_gap_cycle : forall o tru w f sch h,
+  wwf w -> Z.of_nat (length (w_shards w)) <= max_shard o ->
+  In h (w_active w) -> held w h -> held (model_cycle o tru w f sch) h.
+Proof. exact cycle_no_gap. Qed.
+Print Assumptions C05_no_gap_cycle.
+
+(* ... and over every history of cycles (faults, schedules), scrape rounds, ticks, sidecar restarts and changes of the
+   discovered set that keep the target: once held, always held. *)
+Theorem C05_no_gap_history : forall o tru h, min_shard o <= max_shard o ->
+  forall steps w,
+  winv o w -> In h (w_active w) -> (forall hs sch, In (LSetActive hs, sch) steps -> In h hs) ->
+  held w h -> held (fold_left (hist_step o tru) steps w) h.
+Proof. exact history_no_gap. Qed.
+Print Assumptions C05_no_gap_history.
+
+(* non-vacuity: two fresh shards satisfy the invariant; after one cycle target 7 is held; it stays held through a
+   cycle in which every update is lost and shard 0 is unreachable, a restart of both shards, and three more rounds *)
+Definition nw_o : opts := {| max_head := 0; max_proc := 1000; max_shard := 4; min_shard := 1; max_idle := 0; disable_alleviate := false |}.
+Definition nw_tru : amap truth := [(7%N, {| tr_job := 0; tr_series := 10; tr_total := 10; tr_healthy := true |})].
+Definition nw_w0 : world := {| w_shards := [fresh_shard 0; fresh_shard 0]; w_active := [7%N]; w_now := 0 |}.
+Example C05_world_invariant_holds : winv nw_o nw_w0.
+Proof.
+  constructor.
+  - repeat constructor; apply wf_fresh.
+  - repeat constructor.
+  - cbn. lia.
+Qed.
+Example C05_world_example :
+  let w1 := model_cycle nw_o nw_tru nw_w0 no_faults [] in
+  let hist := [(LCycle {| f_post_lost := [0; 1]%nat; f_unreachable := [0%nat]; f_not_ready := []; f_stale := [] |}, []);
+               (LRestart 0, []); (LRestart 1, []); (LScrapeAll 3, []); (LCycle no_faults, []); (LScrapeAll 3, []); (LCycle no_faults, [])] in
+  existsb (fun s => existsb (N.eqb 7) (akeys (sc_status (ws_sc s)))) (w_shards w1) = true /\
+  existsb (fun s => existsb (N.eqb 7) (akeys (sc_status (ws_sc s)))) (w_shards (fold_left (hist_step nw_o nw_tru) hist w1)) = true.
 Proof. vm_compute. split; reflexivity. Qed.
